@@ -15,13 +15,23 @@ sys.path.insert(0, str(VERIF / "harness" / "canary"))
 
 def execute(spec):
     kind = spec[0]
-    if kind == "dumps":
+    if kind == "dumps-expr":
+        # objects that cannot be pickled into a spec are built from an expression over the importable user classes
+        import numpy as np
+        import verif_userclasses as U
+
+        obj = eval(spec[1], {"U": U, "np": np})
+        return execute(("dumps-obj", obj))
+    if kind in ("dumps", "dumps-obj"):
         from skops.io import dumps
 
         from . import valuecheck
         from .props.c12 import normalised_members
 
-        data = dumps(pickle.loads(spec[1]))
+        try:
+            data = dumps(pickle.loads(spec[1]) if kind == "dumps" else spec[1])
+        except Exception as ex:
+            return ("raised", type(ex).__name__)
         schema, _, _ = valuecheck.archive_parts(data)
         ns, _ = valuecheck.normalise_schema(schema)
         return ("dumped", ns, normalised_members(data))
